@@ -212,8 +212,8 @@ func serverDecode(body []byte, abrupt bool, want []*gt.Message, single bool) (n 
 	return
 }
 
-func framingCase(c map[string]interface{}) map[string]interface{} {
-	out := map[string]interface{}{}
+func framingCase(c map[string]interface{}) (out map[string]interface{}) {
+	out = map[string]interface{}{}
 	for k, v := range c {
 		out[k] = v
 	}
